@@ -53,9 +53,48 @@ def main():
     area = {"C15": "acc", "C17": "acc", "C18": "acc", "C16": "c16", "C20": "c20", "C11": "c11",
             "C12": "text", "C13": "text", "C14": "text"}.get(pid)
     import contextlib
+    # Memory bound of the thorough tier: the python differ holds every row of a suite in memory, and the thorough-size
+    # T-run (≈17 M rows) and T-raw (≈8 M rows) suites together exceed the sandbox's 62 GB for the checks that load several
+    # suites at once (measured: C01 thorough 34 GB with T-run alone; C09 thorough was OOM-killed at 65 GB).  For those
+    # checks the thorough tier therefore explores MORE SEEDS at quick suite size instead of bigger suites: three
+    # independent corpora (seed, seed+1, seed+2: three times the random grammars and random inputs), one after the other,
+    # plus Miri (C09) and leanchecker.  Their results are merged below.
+    HEAVY = {"C02", "C03", "C04", "C05", "C06", "C07", "C08", "C09", "C10"}
     try:
         with (suites.workspace_lock("area_" + area) if area else contextlib.nullcontext()):
-            P.CHECKS[pid](ctx)
+            if tier == "thorough" and pid in HEAVY:
+                os.environ["VERIF_MIRI"] = "1"
+                nseeds = int(os.environ.get("VERIF_THOROUGH_SEEDS", "3"))
+                for k in range(nseeds):
+                    sub = P.Ctx(pid, "quick", seed + k)
+                    try:
+                        P.CHECKS[pid](sub)
+                    except Exception as e:
+                        sub.tie_broken("harness", {"error": str(e)[-3000:], "trace": traceback.format_exc()[-2000:], "seed": seed + k})
+                    ctx.violations += sub.violations
+                    ctx.broken_ties += sub.broken_ties
+                    for name, t in sub.ties.items():
+                        a = ctx.ties.setdefault(name, {"cases": 0, "agree": 0, "observables": t.get("observables", [])})
+                        a["cases"] += t.get("cases", 0)
+                        a["agree"] += t.get("agree", 0)
+                    ctx.evaluations += sub.evaluations
+                    ctx.nontrivial += sub.nontrivial
+                    ctx.samples = ctx.samples or sub.samples
+                    ctx.rule_text = sub.rule_text
+                    ctx.assumptions = sub.assumptions
+                    for kf, n in sub.known_seen.items():
+                        ctx.known_seen[kf] = ctx.known_seen.get(kf, 0) + n
+                    cov = dict(sub.coverage)
+                    ctx.coverage.setdefault("per_seed", []).append({"seed": seed + k, "evaluations": sub.evaluations,
+                                                                     "coverage": {c: v for c, v in cov.items() if isinstance(v, (int, float, str, bool))}})
+                    for c, v in cov.items():
+                        ctx.coverage.setdefault(c, v)
+                    del sub
+                    import gc
+                    gc.collect()
+                ctx.coverage["thorough_scheme"] = f"{nseeds} independent corpora (seeds {seed}..{seed + nseeds - 1}) at quick suite size, run one after the other (memory bound: see check.py), + Miri for C09 + leanchecker"
+            else:
+                P.CHECKS[pid](ctx)
     except Exception as e:  # a broken runner is a broken tie, reported as such
         ctx.tie_broken("harness", {"error": str(e)[-3000:], "trace": traceback.format_exc()[-2000:]})
     # verdict
